@@ -336,7 +336,9 @@ MEAN = z3.Function("MEAN", ARR, z3.IntSort(), z3.RealSort())
 STD = z3.Function("STD", ARR, z3.IntSort(), z3.RealSort())
 
 
-def pow_axioms():
+def pow_axioms(mono=False):
+    """facts about real powers of non-negative bases the proofs may use.  P5 (monotone in the base, binary trigger: quadratic
+    number of instances) is only included for functions whose contract asks for it (lemmas=['POW_MONO'])."""
     r, s, a = z3.Reals("pr ps pa")
     P = POW
     ax = [
@@ -350,7 +352,21 @@ def pow_axioms():
         z3.ForAll([r, a], z3.Implies(z3.And(0 <= r, r <= 1, a >= 1), P(r, a) <= r), patterns=[P(r, a)]),  # P7
         z3.ForAll([r, a], z3.Implies(z3.And(r > 0), P(r, a) > 0), patterns=[P(r, a)]),      # P8 positivity
     ]
+    if not mono:
+        del ax[4]
     return ax
+
+
+def sum_axioms_nonrecursive():
+    """what ordinary obligations may use about SUM: the empty sum and the one-element sum (both consequences of the two
+    defining axioms).  The recursive unfolding axiom is a matching loop for symbolic bounds, so it is only given to the
+    induction proofs of the lemma library; functions use SUM through lemma applications."""
+    A = z3.Const("sA", ARR)
+    lo, hi = z3.Ints("slo shi")
+    return [
+        z3.ForAll([A, lo, hi], z3.Implies(hi <= lo, SUM(A, lo, hi) == 0), patterns=[SUM(A, lo, hi)]),
+        z3.ForAll([A, lo, hi], z3.Implies(hi == lo + 1, SUM(A, lo, hi) == A[lo]), patterns=[SUM(A, lo, hi)]),
+    ]
 
 
 def sum_axioms():
